@@ -4,6 +4,7 @@ import (
 	"fmt"
 	"go/token"
 	"go/types"
+	"strings"
 
 	"golang.org/x/tools/go/ssa"
 )
@@ -271,33 +272,48 @@ func checkC16(c *Check, p *Program) {
 			arg = mi.X
 		}
 		c.Decide(arg == ssa.Value(conn) && !inAnyLoop(reader.Block()), "C16.T1", tn+" one reader for the connection", p.InstrPos(reader), "bufio.NewReader(conn) outside the loop", "the buffered reader is re-created per frame (buffered bytes of the next frame are lost) or wraps something else")
-		// uses of conn: only NewReader and logging
-		for _, u := range usesOf(conn) {
-			switch x := u.(type) {
-			case *ssa.MakeInterface:
-				for _, uu := range usesOf(x) {
-					if call, ok := uu.(*ssa.Call); ok && call == reader {
+		// uses of conn: only NewReader and logging (followed through interface conversions)
+		var walkConn func(v ssa.Value, depth int)
+		walkConn = func(v ssa.Value, depth int) {
+			if depth > 6 {
+				return
+			}
+			for _, u := range usesOf(v) {
+				switch x := u.(type) {
+				case *ssa.MakeInterface:
+					walkConn(x, depth+1)
+				case *ssa.ChangeInterface:
+					walkConn(x, depth+1)
+				case *ssa.ChangeType:
+					walkConn(x, depth+1)
+				case *ssa.Phi:
+					walkConn(x, depth+1)
+				case *ssa.DebugRef, *ssa.Store, *ssa.Defer:
+					// stores: varargs of the logger
+				case *ssa.Call:
+					if x == reader {
 						continue
 					}
-					if st, ok := uu.(*ssa.Store); ok {
-						_ = st // varargs of the logger
+					if x.Common().IsInvoke() && x.Common().Value == v {
+						c.Fail("C16.T1", tn+" connection read directly", p.InstrPos(x), "a method of the connection ("+x.Common().Method.Name()+") is called directly: reads that bypass the buffered reader see segment boundaries")
 						continue
 					}
-					if call, ok := uu.(*ssa.Call); ok && call.Common().StaticCallee() != nil && fnPkg(call.Common().StaticCallee()) != nil && fnPkg(call.Common().StaticCallee()).Pkg.Path() == utilPath {
-						continue
+					if f := x.Common().StaticCallee(); f != nil {
+						if pk := fnPkg(f); pk != nil && pk.Pkg.Path() == utilPath {
+							continue // logging
+						}
+						if f.Signature.Recv() != nil && len(x.Common().Args) > 0 && x.Common().Args[0] == v {
+							c.Fail("C16.T1", tn+" connection read directly", p.InstrPos(x), "a method of the connection ("+f.Name()+") is called directly: reads that bypass the buffered reader see segment boundaries")
+							continue
+						}
 					}
-					if _, ok := uu.(*ssa.Defer); ok {
-						continue
-					}
-					c.Fail("C16.T1", tn+" connection used directly", p.InstrPos(uu), "the connection is used other than through the buffered reader")
+					c.Fail("C16.T1", tn+" connection used directly", p.InstrPos(x), "the connection is handed to "+describe(x)+" other than the buffered reader or the logger")
+				default:
+					c.Fail("C16.T1", tn+" connection escapes", p.InstrPos(u), "unrecognised use of the connection")
 				}
-			case *ssa.DebugRef:
-			case *ssa.Call:
-				c.Fail("C16.T1", tn+" connection read directly", p.InstrPos(x), "a method of the connection is called directly ("+describe(x)+"): reads that bypass the buffered reader see segment boundaries")
-			default:
-				c.Fail("C16.T1", tn+" connection escapes", p.InstrPos(u), "unrecognised use of the connection")
 			}
 		}
+		walkConn(conn, 0)
 		// uses of the reader: Peek(6) and io.ReadFull only
 		var peek, readFull *ssa.Call
 		var walkUses func(v ssa.Value)
@@ -544,7 +560,9 @@ func checkHostInfo(c *Check, p *Program) {
 			return
 		}
 		facts := factsAt(in.Block())
-		sl := anyFact(facts, func(f Cmp) bool { return cmpIsBool(f, true, func(v ssa.Value) bool { return isLoadOf(v, a.sendLocal) }) })
+		sl := anyFact(facts, func(f Cmp) bool {
+			return cmpIsBool(f, true, func(v ssa.Value) bool { return isLoadOf(v, a.sendLocal) })
+		})
 		notTCP := anyFact(facts, func(f Cmp) bool { return isUseTCPFact(f, a, false) })
 		c.Decide(sl && notTCP, "C16.T5", hn+" real endpoint only when configured and not TCP", p.InstrPos(in), "behind SendLocalAddress && !UseTCP", "the local endpoint is advertised although not configured (or on TCP, where the all-zero endpoint is required)")
 		arg := in.(*ssa.Call).Common().Args[0]
@@ -663,35 +681,18 @@ func checkSocketSend(c *Check, p *Program, rule string) {
 		nSend++
 		name := FuncName(fn)
 		c.Analysed("functions", name)
-		var mk *ssa.MakeSlice
-		var pack *ssa.Call
 		var writes []*ssa.Call
 		instrsOf(fn, func(in ssa.Instruction) {
-			switch x := in.(type) {
-			case *ssa.MakeSlice:
-				mk = x
-			case *ssa.Call:
-				if x.Common().StaticCallee() == packFn {
-					pack = x
-				}
+			if x, ok := in.(*ssa.Call); ok {
 				if o := calleeObj(x); o != nil && (o.Name() == "Write" || o.Name() == "WriteToUDP" || o.Name() == "WriteTo" || o.Name() == "WriteMsgUDP") {
 					writes = append(writes, x)
 				}
 			}
 		})
-		okMk := false
-		if mk != nil {
-			l := mk.Len
-			if cv, ok := l.(*ssa.Convert); ok {
-				l = cv.X
-			}
-			if call, ok := l.(*ssa.Call); ok && call.Common().StaticCallee() == sizeFn && call.Common().Args[0] == ssa.Value(fn.Params[1]) {
-				okMk = true
-			}
-		}
-		c.Decide(okMk, rule, name+" fresh buffer of Size(payload)", p.Pos(fn.Pos()), "make([]byte, Size(payload)) per call", "Send does not allocate a fresh buffer of exactly Size(payload) per call (a shared buffer is torn by concurrent senders; another size breaks the header's total length)")
-		okPack := pack != nil && mk != nil && pack.Common().Args[0] == ssa.Value(mk) && pack.Common().Args[1] == ssa.Value(fn.Params[1])
-		c.Decide(okPack, rule, name+" packs the payload into that buffer", p.Pos(fn.Pos()), "Pack(buffer, payload)", "the frame is not packed into the freshly allocated buffer")
+		pb := findPackedBuf(fn, fn.Params[1], sizeFn, packFn, 0)
+		mk, pack := pb.buf, pb.at
+		c.Decide(pb.okMk, rule, name+" fresh buffer of Size(payload)", p.Pos(fn.Pos()), "make([]byte, Size(payload)) per call"+pb.via, "Send does not allocate a fresh buffer of exactly Size(payload) per call (a shared buffer is torn by concurrent senders; another size breaks the header's total length)")
+		c.Decide(pb.okPack, rule, name+" packs the payload into that buffer", p.Pos(fn.Pos()), "Pack(buffer, payload)"+pb.via, "the frame is not packed into the freshly allocated buffer")
 		// concurrent senders share nothing but the connection: no store to the socket, no package-level state
 		shared := ""
 		instrsOf(fn, func(in ssa.Instruction) {
@@ -715,7 +716,7 @@ func checkSocketSend(c *Check, p *Program, rule string) {
 		c.Exact(rule, name+" write calls", len(writes), 1, p.Pos(fn.Pos()))
 		for _, w := range writes {
 			args := callArgs(w)
-			okW := len(args) >= 1 && mk != nil && args[0] == ssa.Value(mk) && pack != nil && instrDominates(pack, w)
+			okW := len(args) >= 1 && mk != nil && args[0] == mk && pack != nil && instrDominates(pack, w)
 			c.Decide(okW, rule, name+" writes the whole buffer once", p.InstrPos(w), "the packed slice itself, after Pack", "the bytes written are not exactly the packed buffer (re-sliced, written before packing, or another slice)")
 			min, max := pathCount(fn.Blocks[0], func(in ssa.Instruction) bool { return in == ssa.Instruction(w) }, nil)
 			c.Decide(min == 1 && max == 1, rule, name+" one write on every path", p.InstrPos(w), "exactly one", fmt.Sprintf("%d..%d writes per Send", min, max))
@@ -724,4 +725,87 @@ func checkSocketSend(c *Check, p *Program, rule string) {
 	}
 	c.Floor(rule, "socket Send implementations", nSend, 2)
 
+}
+
+// packedBuf: the value in fn holding a fresh make([]byte, Size(payload)) that
+// Pack(buf, payload) filled, and the instruction after which it is filled.
+type packedBuf struct {
+	buf          ssa.Value
+	at           ssa.Instruction
+	okMk, okPack bool
+	via          string
+}
+
+// findPackedBuf recognises the allocation+pack pair in fn directly, or a call
+// of a module function that performs the pair on the same payload and returns
+// the buffer on every path (knxnet.AllocAndPack).
+func findPackedBuf(fn *ssa.Function, payload ssa.Value, sizeFn, packFn *ssa.Function, depth int) packedBuf {
+	var mk *ssa.MakeSlice
+	var pack *ssa.Call
+	instrsOf(fn, func(in ssa.Instruction) {
+		switch x := in.(type) {
+		case *ssa.MakeSlice:
+			mk = x
+		case *ssa.Call:
+			if x.Common().StaticCallee() == packFn {
+				pack = x
+			}
+		}
+	})
+	if mk != nil || pack != nil {
+		r := packedBuf{}
+		if mk != nil {
+			r.buf = mk
+			l := mk.Len
+			if cv, ok := l.(*ssa.Convert); ok {
+				l = cv.X
+			}
+			if call, ok := l.(*ssa.Call); ok && call.Common().StaticCallee() == sizeFn && call.Common().Args[0] == payload {
+				r.okMk = true
+			}
+		}
+		if pack != nil {
+			r.at = pack
+		}
+		r.okPack = pack != nil && mk != nil && pack.Common().Args[0] == ssa.Value(mk) && pack.Common().Args[1] == payload
+		return r
+	}
+	if depth > 1 {
+		return packedBuf{}
+	}
+	var res packedBuf
+	instrsOf(fn, func(in ssa.Instruction) {
+		call, ok := in.(*ssa.Call)
+		if !ok {
+			return
+		}
+		g := call.Common().StaticCallee()
+		if g == nil || g.Blocks == nil || g.Pkg == nil || !strings.HasPrefix(g.Pkg.Pkg.Path(), modPath) {
+			return
+		}
+		idx := -1
+		for i, a := range call.Common().Args {
+			if a == payload {
+				idx = i
+			}
+		}
+		if idx < 0 || idx >= len(g.Params) {
+			return
+		}
+		sub := findPackedBuf(g, g.Params[idx], sizeFn, packFn, depth+1)
+		if !sub.okMk || !sub.okPack {
+			return
+		}
+		rets := returnsOf(g)
+		for _, r := range rets {
+			if len(r.Results) != 1 || r.Results[0] != sub.buf || !instrDominates(sub.at, r) {
+				return
+			}
+		}
+		if len(rets) == 0 {
+			return
+		}
+		res = packedBuf{buf: call, at: call, okMk: true, okPack: true, via: " (in " + FuncName(g) + ", which returns the packed buffer on every path)"}
+	})
+	return res
 }
